@@ -187,6 +187,8 @@ func runC12(c *mc.Ctx) {
 	for n := 0; n <= N; n++ {
 		counts = append(counts, uint32(n))
 	}
+	// counts around 2^16 and 2^24 (a truncated count would be evaluated against a smaller tree)
+	counts = append(counts, 65535, 65536, 65537, 65538, 65539, 131073, 1<<24+1)
 	counts = append(counts, merkleblock.MaxTxnCount, merkleblock.MaxTxnCount+1, 1<<32-1)
 	// all flag strings of 0,1,2 bytes
 	nflags := int64(1 + 256 + 65536)
